@@ -392,13 +392,47 @@ def check_c(ck, repo):
         ck.verdict(len(bases) == 2 and bases[0] == base and bases[1].endswith("NGramsMixin"), "C14.c", None, f"class {cname}({', '.join(b.split('.')[-1] for b in bases)})", "scikit-learn vectorizer first, mixin second (explicit delegation required and present)", f"bases of {cname} are {bases}", file=ci.module.relpath, function=cname, line=ci.node.lineno)
 
 
+def _recognised(repo) -> bool:
+    try:
+        fi = repo.cls(MOD, "NGramsMixin").methods.get("_word_ngrams")
+    except AnalysisError:
+        return False
+    if fi is None:
+        return False
+    site = _append_site(fi)
+    return site is not None and isinstance(site[2], ast.Call) and resolve_call(repo, fi, site[2]) is not None
+
+
+def _view(repo):
+    """the n-gram rules read the join of a window as a FUNCTION applied in a doubly
+    nested loop.  When a refactoring moved that function (to module level, under
+    another name) the look-through view has it expanded in the loop; the plain
+    view of the same sources still shows the call.  Either view is the program."""
+    if _recognised(repo):
+        return repo
+    from engine.src import Repo, CURRENT_REPO
+
+    try:
+        plain = Repo(repo.root, repo.overlay, look_through_helpers=False)
+    except Exception:
+        CURRENT_REPO[0] = repo
+        return repo
+    if _recognised(plain):
+        return plain
+    CURRENT_REPO[0] = repo
+    return repo
+
+
 def run(ck):
-    repo = ck.repo
+    repo = _view(ck.repo)
     for k, v in RULES.items():
         ck.rule(k, v)
     check_a(ck, repo)
     check_b(ck, repo)
     check_c(ck, repo)
+    from engine.src import CURRENT_REPO
+
+    CURRENT_REPO[0] = ck.repo
     ck.require_count("C14.a", 2, "filter kind, kind at n-gram section, space_join")
     ck.require_count("C14.b", 2, "loop nest, unpacking, return, filter statement, order")
     ck.require_count("C14.c", 2, "two classes x (delegation, bases)")
